@@ -7,35 +7,39 @@ EXTENDS Composite, Json, IOUtils, TLCExt
 
 Traces == JsonDeserialize(IOEnv.TRACE_FILE)
 NT == Len(Traces)
-VARIABLES tid, l, nc
-tvars == <<vars, tid, l, nc>>
+VARIABLES tid, l, nc, strays
+tvars == <<vars, tid, l, nc, strays>>
 Tr == Traces[tid]
 Ev == Tr.events[l]
 
-TraceInit == /\ tid \in 1..NT /\ l = 1 /\ nc = FALSE /\ InitWith(Traces[tid].kind, <<>>)
+TraceInit == /\ tid \in 1..NT /\ l = 1 /\ nc = FALSE /\ strays = FALSE /\ InitWith(Traces[tid].kind, <<>>)
 Step == l <= Len(Tr.events) /\ l' = l + 1 /\ UNCHANGED tid
 
+\* (the write must reach exactly the composite's own children: a different number of demands
+\*  observed is recorded in `strays` and reported by WritesReachOwnChildren)
 TWrite == /\ Ev.e = "Write"
-          /\ Len(Ev.cd) = K
-          /\ ch' = [i \in 1..K |-> [ch[i] EXCEPT !.d = Ev.cd[i]]]
+          /\ strays' = (strays \/ Len(Ev.cd) # K \/ Ev.nchildren # K)
+          /\ ch' = IF Len(Ev.cd) = K THEN [i \in 1..K |-> [ch[i] EXCEPT !.d = Ev.cd[i]]] ELSE ch
           /\ cdemand' = Ev.D
           /\ act' = [name |-> "Write", D |-> Ev.D, i |-> 0, attr |-> "", v |-> 0, c |-> NoChild]
           /\ UNCHANGED <<kind, obs>>
-          /\ nc' = (nc \/ ~Write(Ev.D))
+          /\ nc' = (nc \/ Len(Ev.cd) # K \/ ~Write(Ev.D))
 TRead == /\ Ev.e = "Read"
          /\ obs' = [demand |-> Ev.demand, supply |-> Ev.supply, u |-> Ev.u, a |-> Ev.a]
          /\ act' = [name |-> "Read", D |-> 0, i |-> 0, attr |-> "", v |-> 0, c |-> NoChild]
          /\ UNCHANGED <<kind, ch, cdemand>>
+         /\ strays' = (strays \/ Ev.nchildren # K)
          /\ nc' = (nc \/ ~Read)
-TSet == Ev.e = "SetChild" /\ SetChild(Ev.i, Ev.attr, Ev.v) /\ UNCHANGED nc
-TAdd == Ev.e = "AddChild" /\ AddChild(Ev.c) /\ UNCHANGED nc
-TRemove == Ev.e = "Remove" /\ Remove(Ev.i) /\ UNCHANGED nc
+TSet == Ev.e = "SetChild" /\ SetChild(Ev.i, Ev.attr, Ev.v) /\ UNCHANGED <<nc, strays>>
+TAdd == Ev.e = "AddChild" /\ AddChild(Ev.c) /\ UNCHANGED <<nc, strays>>
+TRemove == Ev.e = "Remove" /\ Remove(Ev.i) /\ UNCHANGED <<nc, strays>>
 
 TraceNext == Step /\ (TWrite \/ TRead \/ TSet \/ TAdd \/ TRemove)
 TraceSpec == TraceInit /\ [][TraceNext]_tvars
 
 Mon(name, ok) == ok \/ PrintT(<<"PV", tid, l - 1, name>>)
 Monitor ==
+    /\ Mon("WritesReachOwnChildren", ~strays)
     /\ Mon("Conservation", Conservation)
     /\ Mon("Proportional", Proportional)
     /\ Mon("ShareBounds", ShareBounds)
